@@ -27,7 +27,7 @@ code -> spec: a seeded generator builds much deeper sources from the segment gra
 Oracle zones (no single answer is determined; TemplateSyntaxError or any faithful partition is
 accepted): a block tag with an unbalanced quote; an unterminated tag containing a quoted "%}";
 with multiline_tags=False, a quoted tag that spans a line break.  Avoided by the generator:
-a quoted "%}" inside a verbatim body, backslash-newline inside a string, "{" as last character of a
+a quoted "%}" inside a verbatim body, "{" as last character of a
 text run, complete tags inside an unterminated tail, whitespace other than space/tab/CR/newline.
 """
 from __future__ import annotations
@@ -537,7 +537,7 @@ class Gen:
     WS1 = [" ", " ", "\n", "  ", "\n  ", " \n ", "\t", "\r\n  "]
     PLAIN_BLOCK = ["c", "x", "k=v", "a.b", "w=5%x", "%", "50%", "x|f:y", "#", "5%", "k=", "/"]
     NAMES = ["c", "x", "k", "y"]
-    STR_BITS = ["s", "a b", "%}", "}}", "{{ v }}", "{% x %}", "\n", '\\"', "\\'", "\\\\", "#}", "%", "{", " ", "{#", "\\n",
+    STR_BITS = ["s", "a b", "%}", "}}", "{{ v }}", "{% x %}", "\n", "\\\n", "x\\\n y", '\\"', "\\'", "\\\\", "#}", "%", "{", " ", "{#", "\\n",
                 "\u00e9", "\r\n"]
 
     def __init__(self, rnd: random.Random):
@@ -841,7 +841,7 @@ def run(tier: str) -> int:
         "characters are code points (incl. non-ASCII); whitespace inside tags is limited to space, tab, CR, newline",
         "oracle zone (TemplateSyntaxError or any faithful partition accepted): unbalanced quote in a block tag; "
         "unterminated tag containing a quoted '%}'; multiline_tags=False with a quoted tag spanning a line break",
-        "not generated: quoted '%}' inside a verbatim body; backslash-newline in a string; text run ending in '{'",
+        "not generated: quoted '%}' inside a verbatim body; text run ending in '{'",
         "multiline_tags on/off is exercised by rebinding django.template.base.tag_re exactly as apps.py does",
         "the hand-over trail (DebugLexer constructions, _detailed_tag_parser calls) is an auxiliary channel: "
         "disagreement is counted as model_drift, never a verdict",
